@@ -220,6 +220,12 @@ def finalize(ctx, explanation, not_decided, extra_assumptions=(), selftest=None,
         lines.append('selftest: mutants %d applicable, %d killed, %d skipped (anchor edited); benign %d, silent %d'
                      % (selftest['mutants_total'], selftest['mutants_killed'], selftest['mutants_skipped'],
                         selftest['benign_total'], selftest['benign_silent']))
+        if 'seeded_changes_run' in selftest:
+            lines.append('corpora: seeded changes %d run, %d reported; verified refactorings %d run, %d silent, %d analysis-error, %d patches not applicable'
+                         % (selftest['seeded_changes_run'], selftest['seeded_changes_reported'], selftest['refactorings_run'],
+                            selftest['refactorings_silent'], selftest['refactorings_analysis_error'], selftest['corpus_patches_not_applicable']))
+            for n in selftest.get('corpus_notes', []):
+                lines.append('  note: ' + n)
         for s in selftest.get('defects', []):
             st_fail += 1
             lines.append('ANALYSIS-ERROR property=%s rule=selftest reason=%s' % (ctx.prop, s))
